@@ -228,7 +228,7 @@ simsched::SchedConfig sc_canonical(long nbytes, int T) {
   simsched::SchedConfig c;
   c.strategy = simsched::ST_RR;
   c.est_steps = est_steps(nbytes, T);
-  c.step_budget = 50 * c.est_steps + 5000;
+  c.step_budget = 200 * c.est_steps + 20000;
   return c;
 }
 
@@ -250,7 +250,7 @@ simsched::SchedConfig sc_for(const Scn &s, int slot, long nbytes, int T) {
   c.max_spurious = (int)s.geti("sw" + k, 0);
   c.p_spurious = 0.03;
   c.est_steps = est_steps(nbytes, T);
-  c.step_budget = 50 * c.est_steps + 5000 + 4 * c.max_spurious;
+  c.step_budget = 200 * c.est_steps + 20000 + 4 * c.max_spurious;
   auto it = s.dec.find(slot);
   if (it != s.dec.end()) {
     c.use_replay = true;
